@@ -563,10 +563,28 @@ def _install_line_tracer(lf: dict) -> None:
     k = lf.get("k")
     exc = SystemExit if lf.get("exc") == "SystemExit" else KeyboardInterrupt
 
+    nops: Dict[Any, set] = {}
+
+    def at_nop(frame) -> bool:
+        """A real asynchronous exception is delivered where the interpreter polls for it (function entry, calls,
+        backward jumps) - never at a NOP. The NOP a bare `try:` / `else:` line compiles to lies OUTSIDE every
+        protected range, so an exception injected there would skip the enclosing `finally` - a behaviour no real
+        interrupt can produce. Such a line event is not an injection point: the injection moves to the next one."""
+        code = frame.f_code
+        if code not in nops:
+            import dis
+            nops[code] = {i.offset for i in dis.get_instructions(code) if i.opname == "NOP"}
+        return frame.f_lasti in nops[code]
+
+    pending = [False]
+
     def local(frame, event, arg):
         if event == "line":
             lf["count"] += 1
-            if k is not None and lf["count"] == k and not lf.get("fired"):
+            if k is not None and not lf.get("fired") and (lf["count"] == k or pending[0]):
+                if at_nop(frame):
+                    pending[0] = True
+                    return local
                 lf["fired"] = (os.path.basename(frame.f_code.co_filename), frame.f_lineno, frame.f_code.co_name)
                 raise exc()
         return local
